@@ -15,6 +15,14 @@ class Item:
     tag: int
 
 
+@dataclass(eq=False)
+class FalsyItem(Item):
+    """An element whose truth value is False (an empty container-like object)."""
+
+    def __len__(self):
+        return 0
+
+
 def make_constraint(kind, lo, hi):
     if kind == "none":
         return None
@@ -32,17 +40,18 @@ def make_constraint(kind, lo, hi):
 def domain(n, form):
     if form == "nocond":
         return [Item(True, i) for i in range(n)]
-    items = [Item(False, -1)]
+    K = FalsyItem if form == "falsy" else Item
+    items = [K(False, -1)]
     for i in range(n):
-        items.append(Item(True, i))
+        items.append(K(True, i))
         if i % 2 == 0:
-            items.append(Item(False, -2 - i))
+            items.append(K(False, -2 - i))
     return items
 
 
 def build(kind, c, form, dom):
     x = let(Item, dom, name="x")
-    if form == "entity":
+    if form in ("entity", "falsy", "pair"):
         d = entity(x, x.ok == True)
     elif form == "setof":
         d = set_of([x], x.ok == True)
@@ -57,7 +66,45 @@ def build(kind, c, form, dom):
     return an(d, quantification=c), x
 
 
+def handle_pair(case):
+    """Two live evaluations of one quantified query object, stepped as the schedule says (QuantifierPair.tla).
+    The variable's domain is warmed by one complete unquantified evaluation first, so that the iterators replay
+    the domain cache (interleaving cold iterators over one variable is C03's open finding, not C09's business)."""
+    kind, lo, hi, n = case["kind"], case["lo"], case["hi"], case["n"]
+    c = make_constraint(kind, lo, hi)
+    dom = domain(n, "pair")
+    x = let(Item, dom, name="x")
+    warm = list(an(entity(x, x.ok == True)).evaluate())
+    assert len(warm) == n
+    q = an(entity(x, x.ok == True), quantification=c)
+    its, seen, obs = {}, {1: set(), 2: set()}, []
+    for st in case["h"]:
+        i = st["i"]
+        if st["o"] == "start":
+            its[i] = iter(q.evaluate())
+            obs.append({"i": i, "o": "start"})
+            continue
+        try:
+            v = next(its[i])
+        except StopIteration:
+            obs.append({"i": i, "o": "stop"})
+            continue
+        except Exception as ex:
+            obs.append({"i": i, "o": type(ex).__name__})
+            continue
+        if not isinstance(v, Item) or not v.ok:
+            obs.append({"i": i, "o": "non-solution"})
+        elif id(v) in seen[i]:
+            obs.append({"i": i, "o": "duplicate"})
+        else:
+            seen[i].add(id(v))
+            obs.append({"i": i, "o": str(len(seen[i]))})
+    return {"obs": obs}
+
+
 def handle(case):
+    if case.get("form") == "pair":
+        return handle_pair(case)
     kind, lo, hi, n, form = case["kind"], case["lo"], case["hi"], case["n"], case["form"]
     obs = []
     try:
